@@ -233,7 +233,19 @@ func (c *Ctx) RuleValidate() *Result {
 			if !ok || len(call.Call.Args) == 0 {
 				return
 			}
-			if _, isG := call.Call.Args[0].(*ssa.Global); !isG {
+			// the stack: a package-level variable, or a field of the operator itself
+			recvOK := false
+			switch r0 := call.Call.Args[0].(type) {
+			case *ssa.Global:
+				recvOK = true
+			case *ssa.FieldAddr:
+				recvOK = len(fn.Params) > 0 && r0.X == ssa.Value(fn.Params[0])
+			case *ssa.UnOp:
+				if fa, ok := r0.X.(*ssa.FieldAddr); ok {
+					recvOK = len(fn.Params) > 0 && fa.X == ssa.Value(fn.Params[0])
+				}
+			}
+			if !recvOK {
 				return
 			}
 			for _, br := range condBranches(b) {
@@ -291,7 +303,42 @@ func (c *Ctx) failingSidesLoud(fn *ssa.Function, pred func(cond ssa.Value, val b
 func (c *Ctx) RuleResolve() *Result {
 	res := &Result{Rule: "RESOLVE", MinInst: 6}
 	// (r1) the resolved file-name field: stored from the whole match of the rule-id pattern
-	var nameField *ssa.FieldAddr
+	type gfield struct {
+		g     *ssa.Global
+		Field int
+	}
+	var nameField *gfield
+	// the struct a store goes to: the global itself, or a pointer parameter that every caller
+	// binds to the address of the same global (a method of the holder type)
+	holder := func(fa *ssa.FieldAddr, in ssa.Instruction) *gfield {
+		if g, ok := fa.X.(*ssa.Global); ok {
+			return &gfield{g, fa.Field}
+		}
+		par, ok := fa.X.(*ssa.Parameter)
+		if !ok || in.Parent() == nil {
+			return nil
+		}
+		fn := in.Parent()
+		pi := paramIndex(fn, par)
+		var g *ssa.Global
+		n := 0
+		for _, e := range c.Graph().In[fn] {
+			cc := callCommon(e.Site)
+			if cc == nil || staticFn(cc) != fn || pi < 0 || pi >= len(cc.Args) {
+				return nil
+			}
+			gg, ok := cc.Args[pi].(*ssa.Global)
+			if !ok || (g != nil && gg != g) {
+				return nil
+			}
+			g = gg
+			n++
+		}
+		if g == nil || n == 0 {
+			return nil
+		}
+		return &gfield{g, fa.Field}
+	}
 	for _, s := range c.submatchSites() {
 		if s.pattern == nil || s.pattern.Name != "regex.RuleIdFileNameRegex" {
 			continue
@@ -318,8 +365,8 @@ func (c *Ctx) RuleResolve() *Result {
 						}
 					case *ssa.Store:
 						if fa, ok := x.Addr.(*ssa.FieldAddr); ok {
-							if _, isG := fa.X.(*ssa.Global); isG {
-								nameField = fa
+							if h := holder(fa, x); h != nil {
+								nameField = h
 							}
 						}
 					}
@@ -367,9 +414,9 @@ func (c *Ctx) RuleResolve() *Result {
 								walk(x, d+1)
 							}
 						case *ssa.Store:
-							if fa, ok := x.Addr.(*ssa.FieldAddr); ok && x.Val == v {
-								if _, isG := fa.X.(*ssa.Global); isG && isTextType(x.Val.Type()) {
-									nameField = fa
+							if fa, ok := x.Addr.(*ssa.FieldAddr); ok && x.Val == v && isTextType(x.Val.Type()) {
+								if h := holder(fa, x); h != nil {
+									nameField = h
 								}
 							}
 						}
@@ -383,7 +430,7 @@ func (c *Ctx) RuleResolve() *Result {
 		res.Instances++
 		res.bad("cmd:resolved file name", "-", "no place stores the matched argument text (group 0 of the rule-id pattern, plus .ra when missing) as the resolved file name: the file that is opened is rebuilt from parsed parts and can differ from the one named (chain0, zero-padded offsets)")
 	} else {
-		g := nameField.X.(*ssa.Global)
+		g := nameField.g
 		for _, fn := range c.P.RepoFns {
 			allInstrs(fn, func(in ssa.Instruction) {
 				fa, ok := in.(*ssa.FieldAddr)
@@ -678,7 +725,7 @@ func (c *Ctx) RuleResolve() *Result {
 	}
 	// (r1') every path below the assembly directory is built from the resolved file name
 	if nameField != nil {
-		g := nameField.X.(*ssa.Global)
+		g := nameField.g
 		for _, fn := range c.P.RepoFns {
 			if load.ShortPkg(load.FnPkgPath(fn)) != "cmd" {
 				continue
@@ -706,10 +753,8 @@ func (c *Ctx) RuleResolve() *Result {
 				res.Instances++
 				key := load.FnName(fn) + ":file below AssemblyDir()"
 				okName := false
-				if ld, ok := stripConv(els[1]).(*ssa.UnOp); ok {
-					if fa, ok := ld.X.(*ssa.FieldAddr); ok && fa.X == ssa.Value(g) && fa.Field == nameField.Field {
-						okName = true
-					}
+				if gg, fi, ok := c.globalFieldLoad(stripConv(els[1]), fn); ok && gg == g && fi == nameField.Field {
+					okName = true
 				}
 				if par, isPar := stripConv(els[1]).(*ssa.Parameter); isPar && !okName {
 					// the name arrives in a parameter: every caller passes the resolved file name
@@ -779,6 +824,7 @@ func (c *Ctx) RuleResolve() *Result {
 		key := load.FnName(fn) + ":stored root"
 		okSet := false
 		earlyExit := ""
+		var rootStore *ssa.Store
 		allInstrs(fn, func(in ssa.Instruction) {
 			st, ok := in.(*ssa.Store)
 			if !ok || st.Addr != ssa.Value(fn.Params[0]) {
@@ -839,6 +885,7 @@ func (c *Ctx) RuleResolve() *Result {
 			if a, ok := rc.Call.Args[0].(*ssa.Extract); ok {
 				if ac, ok := a.Tuple.(*ssa.Call); ok && isFn(staticCallee(&ac.Call), "path/filepath", "Abs") && hasStat && hasConst {
 					okSet = true
+					rootStore = st
 				}
 			}
 			// the upward loop is left only by its own condition (the file-system root) or with a hit
@@ -862,7 +909,28 @@ func (c *Ctx) RuleResolve() *Result {
 				}
 			}
 		})
-		if okSet && earlyExit != "" {
+		// success is reported only after the search result was stored: a "nothing to do" return in front of the
+		// search (the value equals what the flag already holds) keeps whatever was there, root or not
+		skipped := ""
+		if okSet && rootStore != nil && len(fn.Blocks) > 0 {
+			seen := map[*ssa.BasicBlock]bool{}
+			stack := []*ssa.BasicBlock{fn.Blocks[0]}
+			for len(stack) > 0 && skipped == "" {
+				b := stack[len(stack)-1]
+				stack = stack[:len(stack)-1]
+				if seen[b] || b == rootStore.Block() || c.Loud().BlockDies(b) {
+					continue
+				}
+				seen[b] = true
+				if r, ok := b.Instrs[len(b.Instrs)-1].(*ssa.Return); ok && len(r.Results) == 1 && isNilConst(r.Results[0]) {
+					skipped = c.P.InstrPos(r)
+				}
+				stack = append(stack, b.Succs...)
+			}
+		}
+		if okSet && skipped != "" {
+			res.bad(key, c.P.FnPos(fn), "the -d flag can report success at "+skipped+" without having stored the result of the upward search: the value the flag held before (the working directory itself, set as the default) stays in place although the nearest root lies above it")
+		} else if okSet && earlyExit != "" {
 			res.bad(key, c.P.FnPos(fn), "the upward search for the directory containing regex-assembly can be left at "+earlyExit+" without a hit and before the file-system root is reached: the root is the nearest ancestor that contains regex-assembly, whatever lies in between (a .git directory of a plugin or submodule, a marker file)")
 		} else if okSet {
 			res.ok(key, c.P.FnPos(fn), "*w = search(filepath.Abs(value)), the search probes for regex-assembly with os.Stat")
@@ -946,23 +1014,7 @@ func (c *Ctx) RuleSplitJoinFrame() *Result {
 				if !ok || st.Addr != ssa.Value(ia) {
 					continue
 				}
-				groups := 0
-				for _, op := range stringOperands(stripConv(st.Val), 0) {
-					if g := indexPairGroup(op); g > 0 {
-						groups++
-						continue
-					}
-					for _, sm := range c.submatchSites() {
-						if sm.fn != ws.fn || sm.pattern == nil {
-							continue
-						}
-						for _, u := range sm.uses {
-							if u.val != nil && u.val == op && u.group > 0 {
-								groups++
-							}
-						}
-					}
-				}
+				groups := c.capturedParts(ws.fn, stripConv(st.Val), 0)
 				if groups < 2 {
 					problems = append(problems, "the line that is assigned is not put together from the text before and after the operand as captured by the rule-line pattern: what is replaced is found some other way (first occurrence of the old text, fixed offsets) and can hit another part of the line")
 				}
@@ -1228,6 +1280,64 @@ func (c *Ctx) isAssemblyDir(v ssa.Value, depth int) bool {
 	return n > 0
 }
 
+// capturedParts counts the operands of the concatenation v (in fn) that are captured groups of a
+// pattern matched in fn. A line that a helper of the repository puts together counts as the weakest
+// of the helper's results (results that are nil, the failure returns, aside).
+func (c *Ctx) capturedParts(fn *ssa.Function, v ssa.Value, depth int) int {
+	if depth < 2 {
+		idx := 0
+		var hc *ssa.Call
+		switch x := v.(type) {
+		case *ssa.Extract:
+			hc, _ = x.Tuple.(*ssa.Call)
+			idx = x.Index
+		case *ssa.Call:
+			hc = x
+		}
+		if hc != nil {
+			if H := staticFn(&hc.Call); H != nil && c.P.IsRepoFn(H) && len(H.Blocks) > 0 {
+				weakest := -1
+				allInstrs(H, func(in ssa.Instruction) {
+					r, ok := in.(*ssa.Return)
+					if !ok || idx >= len(r.Results) {
+						return
+					}
+					rv := stripConv(r.Results[idx])
+					if k, ok := rv.(*ssa.Const); ok && k.IsNil() {
+						return
+					}
+					n := c.capturedParts(H, rv, depth+1)
+					if weakest < 0 || n < weakest {
+						weakest = n
+					}
+				})
+				if weakest >= 0 {
+					return weakest
+				}
+				return 0
+			}
+		}
+	}
+	groups := 0
+	for _, op := range stringOperands(v, 0) {
+		if g := indexPairGroup(op); g > 0 {
+			groups++
+			continue
+		}
+		for _, sm := range c.submatchSites() {
+			if sm.fn != fn || sm.pattern == nil {
+				continue
+			}
+			for _, u := range sm.uses {
+				if u.val != nil && u.val == op && u.group > 0 {
+					groups++
+				}
+			}
+		}
+	}
+	return groups
+}
+
 // frameThroughHelper: FRAME when the split happens in a helper H that returns
 // (lines, index, groups): lines is bytes.Split(ReadFile(path), sep) with the
 // join's separator and the written path, the caller assigns exactly one
@@ -1380,4 +1490,89 @@ func indexPairGroup(v ssa.Value) int {
 		return 0
 	}
 	return int(a / 2)
+}
+
+// globalFieldLoad: v reads field fi of the package-level struct g: directly
+// (*(&g.f)), or through a struct parameter (or its spill slot) for which every
+// caller passes the value of g (`performUpdate(all, ctx, ruleValues)`).
+func (c *Ctx) globalFieldLoad(v ssa.Value, fn *ssa.Function) (*ssa.Global, int, bool) {
+	paramGlobal := func(p *ssa.Parameter) *ssa.Global {
+		pi := paramIndex(fn, p)
+		var g *ssa.Global
+		n := 0
+		for _, e := range c.Graph().In[fn] {
+			cc := callCommon(e.Site)
+			if cc == nil || staticFn(cc) != fn || pi < 0 || pi >= len(cc.Args) {
+				continue
+			}
+			n++
+			ld, ok := cc.Args[pi].(*ssa.UnOp)
+			if !ok || ld.Op != token.MUL {
+				return nil
+			}
+			gg, ok := ld.X.(*ssa.Global)
+			if !ok || (g != nil && gg != g) {
+				return nil
+			}
+			g = gg
+		}
+		if n == 0 {
+			return nil
+		}
+		return g
+	}
+	structParam := func(x ssa.Value) *ssa.Parameter {
+		switch y := x.(type) {
+		case *ssa.Parameter:
+			return y
+		case *ssa.UnOp:
+			if al, ok := y.X.(*ssa.Alloc); ok && y.Op == token.MUL {
+				return spilledParam(al)
+			}
+		case *ssa.Alloc:
+			return spilledParam(y)
+		}
+		return nil
+	}
+	switch x := v.(type) {
+	case *ssa.UnOp:
+		if x.Op != token.MUL {
+			return nil, 0, false
+		}
+		fa, ok := x.X.(*ssa.FieldAddr)
+		if !ok {
+			return nil, 0, false
+		}
+		if g, ok := fa.X.(*ssa.Global); ok {
+			return g, fa.Field, true
+		}
+		if p := structParam(fa.X); p != nil {
+			if g := paramGlobal(p); g != nil {
+				return g, fa.Field, true
+			}
+		}
+	case *ssa.Field:
+		if p := structParam(x.X); p != nil {
+			if g := paramGlobal(p); g != nil {
+				return g, x.Field, true
+			}
+		}
+	}
+	return nil, 0, false
+}
+
+// spilledParam: al is the stack slot a struct parameter was copied into (its only store is that parameter).
+func spilledParam(al *ssa.Alloc) *ssa.Parameter {
+	var p *ssa.Parameter
+	n := 0
+	for _, r := range referrers(al) {
+		if st, ok := r.(*ssa.Store); ok && st.Addr == ssa.Value(al) {
+			n++
+			p, _ = st.Val.(*ssa.Parameter)
+		}
+	}
+	if n == 1 {
+		return p
+	}
+	return nil
 }
